@@ -31,6 +31,8 @@ def assert_near(
     if numpy.issubdtype(value.dtype, numpy.datetime64):
         target_value = numpy.array(target_value, dtype=value.dtype)
         assert_datetime_equals(value, target_value, message)
+    if value.dtype.kind in "OSU" and not _is_number(target_value):
+        return assert_text_equals(value, target_value, message)
     if isinstance(target_value, str):
         target_value = commons.eval_expression(target_value)
 
@@ -51,6 +53,28 @@ def assert_near(
 
 
 def assert_datetime_equals(value, target_value, message="") -> None:
+    assert (
+        value == target_value
+    ).all(), f"{message}{value} differs from {target_value}."
+
+
+def _is_number(target_value) -> bool:
+    import numpy
+
+    try:
+        numpy.array(target_value).astype(numpy.float32)
+    except (TypeError, ValueError):
+        return False
+    return True
+
+
+def assert_text_equals(value, target_value, message="") -> None:
+    import numpy
+
+    value = numpy.array(
+        [item.decode() if isinstance(item, bytes) else str(item) for item in value.flat],
+    )
+    target_value = numpy.array(target_value).astype(str)
     assert (
         value == target_value
     ).all(), f"{message}{value} differs from {target_value}."
